@@ -565,7 +565,8 @@ fn scenarios_c04(tier: &str) -> Vec<Scenario> {
         let b = base_of("SO2");
         for pk in Pk::ALL {
             for sm in [0.35, 0.36] {
-                let mut sc = b.scenario(b.world_free(), b.params(pk, sm, 1.5, 0.0), &format!("C04/SO2/span>pi-goal-overhang/{}x{sm}", pk.name()));
+                // (absolute step: the base's unit is not 1)
+                let mut sc = b.scenario(b.world_free(), b.params(pk, sm / b.unit, 1.5, 0.0), &format!("C04/SO2/span>pi-goal-overhang/{}x{sm}", pk.name()));
                 sc.spec = Spec::So2 { bounds: Some((-3.0, 3.0)), frac: None };
                 sc.alphabet = [-2.9, -2.9, -2.0, 0.0, 2.0, 2.9, 2.95, -3.0, 3.0, 1.0].iter().map(|a| V::So2(*a)).collect();
                 sc.start = V::So2(-2.9);
